@@ -867,6 +867,12 @@ fn cond_headers(cond: &str, meta: &FileMeta) -> Vec<(String, String)> {
     if cond == "none" {
         return v;
     }
+    if let Some(raw) = cond.strip_prefix("raw:") {
+        // raw:<header-name>:<verbatim value> — the malformed-value sweep
+        let (name, val) = raw.split_once(':').unwrap();
+        v.push((name.to_string(), val.to_string()));
+        return v;
+    }
     for part in cond.split('+') {
         let (name, kind) = part.split_once(':').unwrap();
         let val = match kind {
@@ -879,6 +885,74 @@ fn cond_headers(cond: &str, meta: &FileMeta) -> Vec<(String, String)> {
             _ => machinery_exit(format!("bad cond {cond}")),
         };
         v.push((name.to_string(), val));
+    }
+    v
+}
+
+/// Class of a conditional setting for the coverage count: the named settings are their own class;
+/// a raw value is classed by header name and by the multiset of characters it uses.
+fn cond_class(cond: &str) -> String {
+    match cond.strip_prefix("raw:") {
+        None => cond.to_string(),
+        Some(raw) => {
+            let (name, val) = raw.split_once(':').unwrap();
+            let mut cs: Vec<char> = val.chars().map(|c| if c.is_ascii_digit() { '0' } else { c }).collect();
+            cs.sort_unstable();
+            cs.dedup();
+            format!("raw:{name}:{}:{}", val.len().min(6), cs.into_iter().collect::<String>())
+        }
+    }
+}
+
+/// Alphabet of the entity-tag sweep: weak prefix letters, quote, an etag character, list
+/// separator, space and the wildcard.
+pub const ETAG_ALPHABET: [u8; 7] = [b'W', b'/', b'"', b'a', b',', b' ', b'*'];
+
+/// Malformed and borderline HTTP-date values.
+pub const DATE_MENU: [&str; 12] = [
+    "",
+    " ",
+    "0",
+    "GMT",
+    "Wed, 03 Mar 2021",
+    "Wed, 03 Mar 2021 05:06:07",
+    "Wed, 03 Mar 2021 05:06:07 UTC",
+    "Wed, 31 Feb 2021 05:06:07 GMT",
+    "Thu, 01 Jan 1970 00:00:00 GMT",
+    "Mon, 01 Jan 0001 00:00:00 GMT",
+    "Fri, 31 Dec 9999 23:59:59 GMT",
+    "Sunday, 06-Nov-94 08:49:37 GMT",
+];
+
+/// Every conditional header with every value over the entity-tag alphabet up to `max_len`
+/// (HeaderValue needs no leading/trailing-space trimming: the value is inserted verbatim), plus
+/// the date menu on the three date-valued headers. The strings live for the whole run.
+pub fn raw_conds(max_len: usize) -> Vec<&'static str> {
+    let mut v: Vec<&'static str> = vec![];
+    let mut vals: Vec<Vec<u8>> = vec![vec![]];
+    let mut start = 0;
+    for _ in 0..max_len {
+        let end = vals.len();
+        for i in start..end {
+            for &c in &ETAG_ALPHABET {
+                let mut t = vals[i].clone();
+                t.push(c);
+                vals.push(t);
+            }
+        }
+        start = end;
+    }
+    for name in ["if-match", "if-none-match", "if-range"] {
+        for val in &vals {
+            let s = format!("raw:{name}:{}", std::str::from_utf8(val).unwrap());
+            v.push(Box::leak(s.into_boxed_str()));
+        }
+    }
+    for name in ["if-modified-since", "if-unmodified-since", "if-range"] {
+        for val in DATE_MENU {
+            let s = format!("raw:{name}:{val}");
+            v.push(Box::leak(s.into_boxed_str()));
+        }
     }
     v
 }
@@ -1008,7 +1082,7 @@ pub async fn check_range(
     st.classes.insert(mc_core::fnv_str(&format!(
         "{shape}|{}|{lc}|{}|{}",
         case.range.as_ref().map(|r| r.numclass.as_str()).unwrap_or(""),
-        case.cond,
+        cond_class(case.cond),
         out.status
     )));
     let sized: Option<u128> = out.size.parse().ok();
@@ -1108,7 +1182,18 @@ pub async fn check_range(
                 ));
             }
         }
-        304 | 412 => {}
+        304 | 412 => {
+            // a 304 answers If-None-Match / If-Modified-Since, a 412 answers If-Match /
+            // If-Unmodified-Since; without such a header there is nothing to answer
+            let needs: [&str; 2] = if out.status == 304 { ["if-none-match", "if-modified-since"] } else { ["if-match", "if-unmodified-since"] };
+            if !needs.iter().any(|h| case.cond.contains(h)) {
+                v.push(mk(
+                    "b-conditional",
+                    format!("{}-without-its-precondition-header:{lc}", out.status),
+                    format!("status {} although the request carries none of {needs:?}", out.status),
+                ));
+            }
+        }
         416 => {
             if cr.is_some() {
                 st.with_416_content_range += 1;
@@ -1140,6 +1225,23 @@ pub fn range_cases(tier: &str) -> Vec<RangeCase> {
                         v.push(RangeCase { file: fi, range: h.clone(), cond, head, sync });
                     }
                 }
+            }
+        }
+    }
+    // malformed / borderline conditional values: without a Range header and with one satisfiable
+    // first-last range, on the 10-byte and the empty file
+    let raw = raw_conds(if tier == "quick" { 4 } else { 6 });
+    for (fi, (_, len)) in LENS.iter().enumerate() {
+        if *len != 10 && *len != 0 {
+            continue;
+        }
+        let mut hdrs: Vec<Option<RangeHdr>> = vec![None];
+        if *len == 10 {
+            hdrs.push(Some(RangeHdr { bytes: b"bytes=2-5".to_vec(), shape: "first-last", numclass: "inside".into() }));
+        }
+        for h in &hdrs {
+            for &cond in &raw {
+                v.push(RangeCase { file: fi, range: h.clone(), cond, head: false, sync: false });
             }
         }
     }
@@ -1331,7 +1433,7 @@ fn explore(tree: &Tree, args: &Args) -> i32 {
     ev.set(
         "rule",
         format!(
-            "(i) every URL path of 1..={max_tokens} tokens from a {}-token alphabet (dot segments, percent-encoded dots/slash/backslash/NUL, raw and encoded UTF-8, invalid UTF-8, double encoding, hidden name, names that exist outside the root) joined by '/', x mounts {:?} x option sets {:?}, sent as GET to a real Files service over a temp tree with tagged canary files outside the root; a traversal class is (reference normal form of the path tail, option set, status) and is non-trivial when the raw tail differs from its normal form. (ii) Range headers (first-last / open / suffix over boundary numbers {{0,1,len-1,len,len+1,2^63,2^64-1,2^64}} plus chunk-boundary numbers for the 70000-byte file, all pairs of a reduced spec set as two-range lists, empty / garbage / other-unit / overflowing / non-ASCII values) x {} conditional-header settings x file lengths {{0,1,10,70000}} x {{GET,HEAD}} x {{async,sync read mode}}; a range class is (shape, number classes relative to the file length, file-length class, conditional, status); all range classes with a Range header are non-trivial. distinct_nontrivial = traversal classes + range classes.",
+            "(i) every URL path of 1..={max_tokens} tokens from a {}-token alphabet (dot segments, percent-encoded dots/slash/backslash/NUL, raw and encoded UTF-8, invalid UTF-8, double encoding, hidden name, names that exist outside the root) joined by '/', x mounts {:?} x option sets {:?}, sent as GET to a real Files service over a temp tree with tagged canary files outside the root; a traversal class is (reference normal form of the path tail, option set, status) and is non-trivial when the raw tail differs from its normal form. (ii) Range headers (first-last / open / suffix over boundary numbers {{0,1,len-1,len,len+1,2^63,2^64-1,2^64}} plus chunk-boundary numbers for the 70000-byte file, all pairs of a reduced spec set as two-range lists, empty / garbage / other-unit / overflowing / non-ASCII values) x {} conditional-header settings x file lengths {{0,1,10,70000}} x {{GET,HEAD}} x {{async,sync read mode}}; plus, on the empty and the 10-byte file with no Range and with bytes=2-5, If-Match / If-None-Match / If-Range with EVERY value over {{W,/,\",a,comma,space,*}} up to 4 (quick) / 6 (thorough) characters and a 12-entry menu of malformed and borderline HTTP-dates on If-Modified-Since / If-Unmodified-Since / If-Range; a range class is (shape, number classes relative to the file length, file-length class, conditional, status); all range classes with a Range header are non-trivial. distinct_nontrivial = traversal classes + range classes.",
             TOKENS.len(),
             MOUNTS,
             OPTIONS,
@@ -1434,7 +1536,10 @@ async fn rerun(tree: &Tree, r: &Value, metas: &[FileMeta], verbose: bool) -> Vec
                     .unwrap_or("garbage"),
                 numclass: String::new(),
             });
-            let cond = CONDS.iter().copied().find(|c| Some(*c) == r["cond"].as_str()).unwrap_or("none");
+            let cond: &'static str = match r["cond"].as_str() {
+                Some(c) if c.starts_with("raw:") => Box::leak(c.to_string().into_boxed_str()),
+                c => CONDS.iter().copied().find(|k| Some(*k) == c).unwrap_or("none"),
+            };
             let case = RangeCase {
                 file,
                 range,
